@@ -180,13 +180,16 @@ class C07(Property):
                 p.setup()
                 gm.set_auto_ivc_values(p, md)
                 srcs = self._sources(md)
+                vectors = False
                 for o in ops:
                     st = {}
                     try:
                         if o['op'] == 'final_setup':
                             p.final_setup()
+                            vectors = True
                         elif o['op'] == 'run_model':
                             p.run_model()
+                            vectors = True
                         else:
                             t = tg[o['target']]
                             v = np.array([float(unrat(x)) for x in o['vals']])
@@ -198,6 +201,11 @@ class C07(Property):
                                 kw['indices'] = gm.spec_to_py(o['indices'])
                             p.set_val(t['name'], v, **kw)
                             st['get'] = np.ravel(p.get_val(t['name'], **kw)).tolist()
+                            if vectors and t['kind'] in ('connected_input', 'auto_ivc_input'):
+                                # an input addressed by its absolute name: once the vectors exist
+                                # the input itself holds the value too (in its own units)
+                                st['get_input'] = np.ravel(p.get_val(t['name'], from_src=False,
+                                                                     **kw)).tolist()
                     except Exception as e:
                         st['error'] = type(e).__name__
                         st['msg'] = str(e)[:200]
@@ -272,6 +280,10 @@ class C07(Property):
             if eg is not None and not self._close(st['get'], eg):
                 return dict(info, what='get_val after set_val does not return the value set',
                             got=st['get'], expected=[float(x) for x in eg])
+            if eg is not None and 'get_input' in st and not self._close(st['get_input'], eg):
+                return dict(info, what='get_val(from_src=False) after set_val on an absolute input '
+                            'name does not return the value set', got=st['get_input'],
+                            expected=[float(x) for x in eg])
             for key, vals in es.items():
                 if not self._close(st['sources'][key], vals):
                     return dict(info, what='an entry that was not addressed changed (or the addressed '
